@@ -167,6 +167,57 @@ pub fn exec(rest: &str, out: &mut Out) -> (String, bool) {
                 items.push(format!("{}:{}", got.map(|k| k.to_string()).unwrap_or("-".into()), lo));
             }
             out.oracle(ok, "double-ended iteration", || items.join(","));
+            // every other way of consuming the iterator from this state agrees with the plain list:
+            // the provided methods an implementation may override (nth, nth_back, count, last, fold,
+            // try-style searches, min/max) and the adaptors that delegate to them (skip, step_by,
+            // rev, take, chain with itself)
+            {
+                let fresh = || { let mut it = s.iter(); for d in dirs.chars() { if d == 'f' { it.next(); } else { it.next_back(); } } it };
+                let want: Vec<Kind> = rem.iter().map(|&j| KINDS[j]).collect();
+                let mut bad: Vec<String> = Vec::new();
+                for n in 0..8usize {
+                    let mut it = fresh();
+                    let got = it.nth(n);
+                    let rest: Vec<Kind> = it.collect();
+                    if got != want.get(n).copied() || rest != want.iter().skip(n + 1).copied().collect::<Vec<_>>() { bad.push(format!("nth({}) = {:?} then {:?}", n, got, rest)); }
+                    let mut it = fresh();
+                    let got = it.nth_back(n);
+                    let rest: Vec<Kind> = it.collect();
+                    let wb = if n < want.len() { Some(want[want.len() - 1 - n]) } else { None };
+                    if got != wb || rest != want.iter().take(want.len().saturating_sub(n + 1)).copied().collect::<Vec<_>>() { bad.push(format!("nth_back({}) = {:?} then {:?}", n, got, rest)); }
+                    if fresh().skip(n).collect::<Vec<_>>() != want.iter().skip(n).copied().collect::<Vec<_>>() { bad.push(format!("skip({})", n)); }
+                    if fresh().take(n).collect::<Vec<_>>() != want.iter().take(n).copied().collect::<Vec<_>>() { bad.push(format!("take({})", n)); }
+                    if n >= 1 && fresh().step_by(n).collect::<Vec<_>>() != want.iter().step_by(n).copied().collect::<Vec<_>>() { bad.push(format!("step_by({})", n)); }
+                    if n >= 1 && fresh().rev().step_by(n).collect::<Vec<_>>() != want.iter().rev().step_by(n).copied().collect::<Vec<_>>() { bad.push(format!("rev().step_by({})", n)); }
+                    if fresh().rev().skip(n).collect::<Vec<_>>() != want.iter().rev().skip(n).copied().collect::<Vec<_>>() { bad.push(format!("rev().skip({})", n)); }
+                }
+                if fresh().count() != want.len() { bad.push("count".into()); }
+                if fresh().last() != want.last().copied() { bad.push("last".into()); }
+                if fresh().rev().collect::<Vec<_>>() != want.iter().rev().copied().collect::<Vec<_>>() { bad.push("rev".into()); }
+                if fresh().fold(Vec::new(), |mut acc, k| { acc.push(k); acc }) != want { bad.push("fold".into()); }
+                if fresh().rfold(Vec::new(), |mut acc, k| { acc.push(k); acc }) != want.iter().rev().copied().collect::<Vec<_>>() { bad.push("rfold".into()); }
+                for k in KINDS {
+                    if fresh().position(|x| x == k) != want.iter().position(|x| *x == k) { bad.push(format!("position({})", k)); }
+                    if fresh().rposition(|x| x == k) != want.iter().rposition(|x| *x == k) { bad.push(format!("rposition({})", k)); }
+                    if fresh().find(|x| *x == k) != want.iter().copied().find(|x| *x == k) { bad.push(format!("find({})", k)); }
+                    if fresh().rfind(|x| *x == k) != want.iter().copied().rfind(|x| *x == k) { bad.push(format!("rfind({})", k)); }
+                    if fresh().any(|x| x == k) != want.contains(&k) { bad.push(format!("any({})", k)); }
+                    if fresh().all(|x| x != k) == want.contains(&k) { bad.push(format!("all(!= {})", k)); }
+                }
+                if fresh().chain(fresh()).collect::<Vec<_>>() != want.iter().chain(want.iter()).copied().collect::<Vec<_>>() { bad.push("chain".into()); }
+                if fresh().zip(fresh().rev()).count() != want.len() { bad.push("zip".into()); }
+                if fresh().map(|k| k.to_string()).collect::<Vec<_>>() != want.iter().map(|k| k.to_string()).collect::<Vec<_>>() { bad.push("map".into()); }
+                if fresh().enumerate().last().map(|p| p.0) != want.len().checked_sub(1) { bad.push("enumerate".into()); }
+                // the owned and borrowed IntoIterator impls
+                if dirs.is_empty() {
+                    if s.into_iter().collect::<Vec<_>>() != want { bad.push("IntoIterator for KindSet".into()); }
+                    if (&s).into_iter().collect::<Vec<_>>() != want { bad.push("IntoIterator for &KindSet".into()); }
+                    let mut viafor = Vec::new();
+                    for k in s { viafor.push(k); }
+                    if viafor != want { bad.push("for loop".into()); }
+                }
+                out.oracle(bad.is_empty(), "every provided iterator method and adaptor agrees with the list of remaining kinds", || bad.join("; "));
+            }
             out.count(&format!("iter_steps_{}", dirs.len()));
             (items.join(","), x != 0)
         }
